@@ -9,5 +9,7 @@ CONSTANTS
   Bug = "none"
   MaxConnect = 6
   MaxCrash = 3
+  MaxOther = 2
+  OtherTables <- OtherTabs
   MaxEnv = 3
 CHECK_DEADLOCK FALSE
